@@ -87,11 +87,15 @@ func gen(r *prng.R, f proto.Flags, emit func(proto.Case)) {
 	genRetain(r, f, emit)
 	genVacuum(r, f, emit)
 	genOverlap(emit)
+	genObserve(r, f, emit)
 }
 
 func exec(c proto.Case, o *proto.Out) []string {
 	if len(c.Ops) > 0 && (strings.HasPrefix(c.Ops[0], "script") || strings.HasPrefix(c.Ops[0], "run")) {
 		return execSharing(c, o)
+	}
+	if len(c.Ops) > 0 && strings.HasPrefix(c.Ops[0], "ocfg") {
+		return execObserve(c, o)
 	}
 	if len(c.Ops) > 0 && strings.HasPrefix(c.Ops[0], "overlap") {
 		return execOverlap(c, o)
